@@ -33,8 +33,10 @@ def run(ctx):
         "coverage is decided on leaf-id ranges (depth 30), never by containment of a depth-D region cell in one covering cell",
         "level limits are demanded of Covering/InteriorCovering/FastCovering; CellUnion()/InteriorCellUnion() must be "
         "normalized, have no cell below MaxLevel and denormalise (MinLevel, LevelMod) into the limits",
-        "MaxCells: |Covering| <= max(MaxCells, number of MinLevel cells the region meets) - the documented "
-        "'MinLevel takes priority' rule; for float regions only checked when MinLevel = 0 (faces met, by the region's own IntersectsCell)",
+        "MaxCells exactly as documented: it may be exceeded only if the number of MinLevel cells the region meets exceeds it "
+        "('MinLevel takes priority'); with MinLevel = 0 the result then has that minimum number (of faces); with MinLevel > 0 "
+        "'an arbitrary number of cells may be returned' and no bound is demanded; for float regions only the MinLevel = 0 "
+        "rule is checked (faces met, by the region's own IntersectsCell)",
         "float regions are checked relationally: witnesses are leaf-cell centres judged by the region's own ContainsPoint; "
         "points of the region that are not witnesses are not decided (continuum)",
         "W2 grid loops: cell edges are great circles, the region is exactly a union of level-G cells; predictions are made "
